@@ -317,7 +317,7 @@ def run(run):
     rng = np.random.default_rng(run.seed)
     quick = run.tier == 'quick'
     cases = files_for(run)
-    D = 2 if quick else 3
+    D = 2           # every depth-2 history over the full alphabet (both tiers); depth 3: sandwiches + (thorough) every history over a core alphabet
     jobs = []
     for fc in cases:
         A = alphabet(fc.F, rng)
@@ -335,9 +335,40 @@ def run(run):
             kk = get_chunk_cache_size(lay['nb'][0], lay['nb'][1])
         return tlc_histories(fc.F, A, kk, D)
 
+    def core_of(A):
+        """<= 16 calls: per cached method two calls differing in one argument, one header read, one emulator accessor, close"""
+        keep, seen = [], {}
+        for i, c in enumerate(A):
+            if c.get('nest') or c.get('slice') or c['op'].endswith('_number') or c['op'].endswith('_coord'):
+                continue
+            key = (c['r'] if c['r'] <= 2 else 3, c['op'])
+            if seen.get(key, 0) < (2 if c['r'] == 1 else 1):
+                seen[key] = seen.get(key, 0) + 1
+                keep.append(i)
+        return keep[:16]
+
+    def one3(job):
+        fc, A, answers, K = job
+        kk = K
+        if kk is None:
+            from seismic_zfp.utils import get_chunk_cache_size
+            kk = get_chunk_cache_size(fc.layout['nb'][0], fc.layout['nb'][1])
+        core = core_of(A)
+        res, hist = tlc_histories(fc.F, [A[i] for i in core], kk, 3)
+        return res, [tuple(core[i - 1] + 1 for i in h) for h in hist if len(h) == 3]
+
     with ThreadPoolExecutor(max_workers=16) as ex:
         results = list(ex.map(one, jobs))
+        results3 = list(ex.map(one3, jobs)) if not quick else []
     items = []
+    for j, (res3, hist3) in enumerate(results3):
+        fc, A, answers, K = jobs[j]
+        run.add_tlc(res3, f'MC_History[{fc.label},K={K},depth 3 on the core alphabet]')
+        if not res3['ok']:
+            run.machinery(f"MC_History (depth 3) failed on {fc.label} K={K}: {res3['violated']}\n{res3['output'][-800:]}")
+            continue
+        items += [(j, h, False) for h in hist3]
+        items += [(j, hist3[i], True) for i in sorted(rng.choice(len(hist3), size=max(1, len(hist3) // 8), replace=False))] if hist3 else []
     for j, ((fc, A, answers, K), (res, hist)) in enumerate(zip(jobs, results)):
         run.add_tlc(res, f'MC_History[{fc.label},K={K}]')
         if not res['ok']:
@@ -353,17 +384,17 @@ def run(run):
             if preload or (not quick and K == 2):
                 hs = [full[i] for i in sorted(rng.choice(len(full), size=max(1, len(full) // 4), replace=False))]
             items += [(j, h, preload) for h in hs]
-        if D < 3:
+        if True:
             # depth-3 "sandwiches" a ; m ; b (the full depth-3 set is the thorough tier): two data reads of one reader with any third call
             # in between - what m leaves behind (a moved file handle, a replaced cache entry) must not reach b
             data_ops = ('read_inline', 'read_crossline', 'read_zslice', 'read_subvolume', 'get_trace', 'read_subplane')
             idx = [i for i, c in enumerate(A) if c['op'] in data_ops and c['r'] in (1, 3, 4, 6)]
             pairs = [(a, b) for a in idx for b in idx if a != b and A[a]['r'] == A[b]['r'] and A[a]['op'] == A[b]['op']]
-            pairs = [pairs[i] for i in sorted(rng.choice(len(pairs), size=min(len(pairs), 10), replace=False))] if pairs else []
+            pairs = [pairs[i] for i in sorted(rng.choice(len(pairs), size=min(len(pairs), 10 if quick else 60), replace=False))] if pairs else []
             mids = [m for m, c in enumerate(A) if c['op'] != 'close']
             sand = [(a + 1, m + 1, b + 1) for a, b in pairs for m in mids if m not in (a, b)]
-            if len(sand) > 160:
-                sand = [sand[i] for i in sorted(rng.choice(len(sand), size=160, replace=False))]
+            if len(sand) > (160 if quick else 3000):
+                sand = [sand[i] for i in sorted(rng.choice(len(sand), size=160 if quick else 3000, replace=False))]
             items += [(j, h, False) for h in sand]
         nest = [i + 1 for i, c in enumerate(A) if c.get('nest')]
         if len(nest) == 3:
@@ -377,7 +408,7 @@ def run(run):
                    False, 0, f'worker process died ({res})')
         if merge(run, res):
             run.traces_validated += 1
-    run.extra['depth'] = D
+    run.extra['depth'] = 'every history of depth 2; sandwiches a;m;b; ' + ('' if quick else 'every history of depth 3 over a core alphabet of <= 16 calls')
 
 
 def replay(run, rep):
